@@ -97,18 +97,19 @@ Fixpoint sim_run (st : sstate) (inss : list (wid -> Z)) : list (wid -> Z) * ssta
       (v :: vs, st'')
   end.
 
-(* _initialize *)
+(* _initialize: the four initial-value rules are the regenerated ones (Gen/SimExec.v) *)
+Definition reset_of (w : wid) : option Z := match kind_of nl w with KReg r => r | _ => None end.
 Definition sim_init (regmap : list (Z * Z)) (memmap : list (Z * list (Z * Z))) : sstate :=
-  let rv := init_reg nl dflt regmap in
+  let rv := fun w => sx_init_reg (assoc regmap w) (reset_of w) dflt in
   {| value := fun w => match kind_of nl w with
                        | KReg _ => rv w
-                       | KConst c => c
-                       | _ => dflt
+                       | KConst c => sx_init_const c
+                       | _ => sx_init_other dflt
                        end;
      regvalue := rv;
-     memvalue := fun m => match find (fun p => fst p =? m) memmap with
-                          | Some (_, d) => d
-                          | None => []
-                          end |}.
+     memvalue := fun m => sx_init_mem (match find (fun p => fst p =? m) memmap with
+                                       | Some (_, d) => Some d
+                                       | None => None
+                                       end) |}.
 
 End WithNetlist.
